@@ -84,6 +84,11 @@ def build_cases(root, tier, rng):
             add("payload", pos, p, SCHEMA, "k.xsd")
         for pos in ("action", "address", "uri"):
             add("payload", pos, ("http://example.com/" if pos != "uri" else "urn:") + p, WSDL2, "k.wsdl")
+        # URLs keep different characters in different components: an opaque path (no `//`) keeps quotes,
+        # a query or a fragment keeps backslashes
+        for pos in ("action", "address"):
+            for pre in ("urn:", "http://example.com/p?q=", "http://example.com/p#"):
+                add("payload", pos, pre + p, WSDL2, "k.wsdl")
     for p in NAME_PAYLOADS + PAYLOADS[:6]:
         for pos in ("stname", "ctname", "elname", "atname", "gename"):
             add("name-payload", pos, p, SCHEMA, "k.xsd")
